@@ -367,6 +367,11 @@ func exprKey(x ast.Expr) string {
 				}
 			}
 		}
+		var as []string
+		for _, x := range v.Args {
+			as = append(as, exprKey(x))
+		}
+		return exprKey(v.Fun) + "(" + strings.Join(as, ",") + ")"
 	case *ast.ParenExpr:
 		return exprKey(v.X)
 	}
@@ -600,6 +605,119 @@ func (e *env) frameCode(outdir string) {
 	}
 }
 
+// refusals renders the conditions of a run of `if cond { ...; return ... }` statements as two disjunctions:
+// every refusal, and the refusals whose body calls writeError (a Close frame with a status goes out first).
+func (e *env) refusals(stmts []ast.Stmt, a atoms) (all string, closing string) {
+	all, closing = "false", "false"
+	n := 0
+	for _, st := range stmts {
+		is, ok := st.(*ast.IfStmt)
+		if !ok {
+			if _, sw := st.(*ast.SwitchStmt); sw {
+				break
+			}
+			if n == 0 {
+				continue // the statements before the first check (reading the header)
+			}
+			break
+		}
+		if be, ok := is.Cond.(*ast.BinaryExpr); ok && exprKey(be.X) == "err" {
+			continue
+		}
+		if is.Init != nil || is.Else != nil || len(is.Body.List) == 0 {
+			fail("%s: check outside the grammar at %v", a.w, e.fset.Position(is.Pos()))
+		}
+		if _, ok := is.Body.List[len(is.Body.List)-1].(*ast.ReturnStmt); !ok {
+			fail("%s: a check that does not return at %v", a.w, e.fset.Position(is.Pos()))
+		}
+		c := e.aCond(is.Cond, a)
+		all = fmt.Sprintf("(orb %s %s)", all, c)
+		if callsNamed(is.Body.List, "writeError") {
+			closing = fmt.Sprintf("(orb %s %s)", closing, c)
+		}
+		n++
+	}
+	if n == 0 {
+		fail("%s: no checks found", a.w)
+	}
+	return all, closing
+}
+
+// readCode writes Gen/ReadCode.v: the header checks of readLoop, the checks of handleControl, the end-of-stream codes of netConn.read.
+func (e *env) readCode(outdir string) {
+	var c strings.Builder
+	c.WriteString("(* GENERATED by /verif/tools/constx from /repo's working tree (read.go readLoop / handleControl, netconn.go read) on every run — do not edit. *)\n")
+	c.WriteString("From Coq Require Import ZArith Bool.\n\n")
+
+	rl := e.fnIn("read.go", "readLoop")
+	var loop *ast.ForStmt
+	for _, st := range rl.Body.List {
+		if f, ok := st.(*ast.ForStmt); ok {
+			loop = f
+		}
+	}
+	if loop == nil {
+		fail("readLoop: loop not found")
+	}
+	la := atoms{b: map[string]string{"h.rsv1": "rsv1", "h.rsv2": "rsv2", "h.rsv3": "rsv3", "c.readRSV1Illegal(h)": "rsv1_illegal", "c.client": "client", "h.masked": "masked"}, z: map[string]string{}, w: "readLoop"}
+	all, closing := e.refusals(loop.Body.List, la)
+	fmt.Fprintf(&c, "(* readLoop: a decoded header that is refused before its opcode is looked at, and the refusals that first send a Close frame *)\n")
+	fmt.Fprintf(&c, "Definition gen_readloop_refused (client masked rsv1 rsv2 rsv3 rsv1_illegal : bool) : bool :=\n  %s.\n", all)
+	fmt.Fprintf(&c, "Definition gen_readloop_closing (client masked rsv1 rsv2 rsv3 rsv1_illegal : bool) : bool :=\n  %s.\n\n", closing)
+
+	hc := e.fnIn("read.go", "handleControl")
+	ha := atoms{z: map[string]string{"h.payloadLength": "n"}, b: map[string]string{"h.fin": "fin"}, w: "handleControl"}
+	call, cclosing := e.refusals(hc.Body.List, ha)
+	fmt.Fprintf(&c, "(* handleControl: a control frame refused before its payload is read (length n, fin) *)\n")
+	fmt.Fprintf(&c, "Definition gen_control_refused (n : Z) (fin : bool) : bool :=\n  %s.\n", call)
+	fmt.Fprintf(&c, "Definition gen_control_closing (n : Z) (fin : bool) : bool :=\n  %s.\n\n", cclosing)
+
+	// netConn.read: the close codes that read as io.EOF
+	nr := e.fnIn("netconn.go", "read")
+	eof := ""
+	ast.Inspect(nr, func(n ast.Node) bool {
+		sw, ok := n.(*ast.SwitchStmt)
+		if !ok || sw.Tag == nil || exprKey(sw.Tag) != "CloseStatus(err)" {
+			return true
+		}
+		for _, cl := range sw.Body.List {
+			cc := cl.(*ast.CaseClause)
+			isEOF := false
+			for _, st := range cc.Body {
+				if rs, ok := st.(*ast.ReturnStmt); ok && len(rs.Results) == 2 && exprKey(rs.Results[1]) == "io.EOF" {
+					isEOF = true
+				}
+			}
+			if !isEOF {
+				continue
+			}
+			if cc.List == nil {
+				fail("netConn.read: default clause returning io.EOF outside the grammar")
+			}
+			for _, v := range cc.List {
+				k, ok := e.eval(v, 0)
+				if !ok || k.Kind() != constant.Int {
+					fail("netConn.read: case expression outside the grammar")
+				}
+				t := fmt.Sprintf("(Z.eqb code (%s))", k.ExactString())
+				if eof == "" {
+					eof = t
+				} else {
+					eof = fmt.Sprintf("(orb %s %s)", eof, t)
+				}
+			}
+		}
+		return false
+	})
+	if eof == "" {
+		fail("netConn.read: the switch on CloseStatus(err) with an io.EOF clause was not found")
+	}
+	fmt.Fprintf(&c, "(* netConn.read: the close codes of the peer that read as io.EOF *)\nDefinition gen_netconn_eof (code : Z) : bool :=\n  %s.\n", eof)
+	if err := os.WriteFile(filepath.Join(outdir, "ReadCode.v"), []byte(c.String()), 0o644); err != nil {
+		fail("%v", err)
+	}
+}
+
 func main() {
 	if len(os.Args) != 3 {
 		fail("usage: constx <repo> <outdir>")
@@ -709,4 +827,5 @@ func main() {
 		fail("%v", err)
 	}
 	e.frameCode(outdir)
+	e.readCode(outdir)
 }
